@@ -54,6 +54,152 @@ func (ck *Check) actCalls() []ssa.CallInstruction {
 	})
 }
 
+// ActCall is one call of the (extended) scan body that can reach an action site. Blocks of the scan
+// body that a maintainer moved into a helper of their own (a function that is not itself one of
+// the action anchors) are looked through: the call is reported at its place inside the helper,
+// with the helper's parameters bound to the arguments of its call site and the path condition
+// being the conjunction along the chain.
+type ActCall struct {
+	Ctx  *Ctx
+	Call ssa.CallInstruction
+	PC   *Formula
+	Key  string
+	Fn   *ssa.Function
+}
+
+func (ck *Check) actionAnchors() (map[*ssa.Function]bool, map[*ssa.Function]bool) {
+	a := ck.A
+	actFns := map[*ssa.Function]bool{}
+	for _, s := range a.A {
+		if s.Class != "A-CLOUD-DEC" {
+			actFns[s.Fn] = true
+		}
+	}
+	anchors := map[*ssa.Function]bool{}
+	for f := range actFns {
+		anchors[f] = true
+	}
+	for _, f := range []*ssa.Function{a.ScaleUp, a.ScaleDown, a.CloudStep, a.UntaintStep, a.TaintLoop, a.UntaintLoop, a.TaintClamp, a.TryDelete, a.GraceReaper, a.ForceReaper, a.Filter} {
+		if f != nil {
+			anchors[f] = true
+		}
+	}
+	return actFns, anchors
+}
+
+func (ck *Check) scanActs() []ActCall {
+	a := ck.A
+	actFns, anchors := ck.actionAnchors()
+	reaches := func(g *ssa.Function) bool {
+		r := ck.P.reachCut([]*ssa.Function{g}, nil)
+		for f := range actFns {
+			if r[f] {
+				return true
+			}
+		}
+		return false
+	}
+	var out []ActCall
+	var walk func(ctx *Ctx, fn *ssa.Function, prefix *Formula, keyPrefix string, depth int)
+	walk = func(ctx *Ctx, fn *ssa.Function, prefix *Formula, keyPrefix string, depth int) {
+		for _, ci := range callsIn(fn, nil) {
+			acts := false
+			for _, g := range ck.P.calleesOf(ci) {
+				if reaches(g) {
+					acts = true
+				}
+			}
+			if !acts {
+				continue
+			}
+			pc := And(prefix, ctx.PC(ci))
+			// dead code (unsatisfiable path condition) performs no action
+			if sat, err := Satisfiable(pc); err == nil && !sat {
+				continue
+			}
+			h := ci.Common().StaticCallee()
+			if call, isCall := ci.(*ssa.Call); isCall && h != nil && !anchors[h] && ck.P.inRepo(h) && h.Blocks != nil && depth < 3 && h != fn {
+				args := make([]*Term, len(call.Common().Args))
+				for i, av := range call.Common().Args {
+					args[i] = ctx.Term(av)
+				}
+				ch := ctx.child(h, call, args)
+				ch.depth = 0
+				walk(ch, h, pc, keyPrefix+ck.P.siteKey(ci)+">", depth+1)
+				continue
+			}
+			out = append(out, ActCall{Ctx: ctx, Call: ci, PC: pc, Key: keyPrefix + ck.P.siteKey(ci), Fn: fn})
+		}
+	}
+	walk(ck.P.NewCtx(a.Scan), a.Scan, FTrue, "", 0)
+	return out
+}
+
+// bodyCalls enumerates the calls matching match in root's extended body: root itself and, looked
+// through, the repo helpers it calls statically that are not action anchors (depth ≤ 3). Each call
+// comes with the context that binds the helper's parameters and the conjoined path condition.
+func (ck *Check) bodyCalls(root *ssa.Function, match func(ssa.CallInstruction) bool) []ActCall {
+	_, anchors := ck.actionAnchors()
+	var out []ActCall
+	var walk func(ctx *Ctx, fn *ssa.Function, prefix *Formula, keyPrefix string, depth int, stack map[*ssa.Function]bool)
+	walk = func(ctx *Ctx, fn *ssa.Function, prefix *Formula, keyPrefix string, depth int, stack map[*ssa.Function]bool) {
+		for _, ci := range callsIn(fn, nil) {
+			pc := And(prefix, ctx.PC(ci))
+			if match(ci) {
+				out = append(out, ActCall{Ctx: ctx, Call: ci, PC: pc, Key: keyPrefix + ck.P.siteKey(ci), Fn: fn})
+				continue
+			}
+			h := ci.Common().StaticCallee()
+			call, isCall := ci.(*ssa.Call)
+			if !isCall || h == nil || anchors[h] || !ck.P.inRepo(h) || h.Blocks == nil || depth >= 3 || stack[h] {
+				continue
+			}
+			args := make([]*Term, len(call.Common().Args))
+			for i, av := range call.Common().Args {
+				args[i] = ctx.Term(av)
+			}
+			ch := ctx.child(h, call, args)
+			ch.depth = 0
+			stack[h] = true
+			walk(ch, h, pc, keyPrefix+ck.P.siteKey(ci)+">", depth+1, stack)
+			delete(stack, h)
+		}
+	}
+	walk(ck.P.NewCtx(root), root, FTrue, "", 0, map[*ssa.Function]bool{root: true})
+	return out
+}
+
+// bodyInstrs visits every instruction of root's extended body (see bodyCalls).
+func (ck *Check) bodyInstrs(root *ssa.Function, visit func(ctx *Ctx, fn *ssa.Function, in ssa.Instruction)) {
+	_, anchors := ck.actionAnchors()
+	var walk func(ctx *Ctx, fn *ssa.Function, depth int, stack map[*ssa.Function]bool)
+	walk = func(ctx *Ctx, fn *ssa.Function, depth int, stack map[*ssa.Function]bool) {
+		for _, b := range fn.Blocks {
+			for _, in := range b.Instrs {
+				visit(ctx, fn, in)
+				call, isCall := in.(*ssa.Call)
+				if !isCall {
+					continue
+				}
+				h := call.Common().StaticCallee()
+				if h == nil || anchors[h] || !ck.P.inRepo(h) || h.Blocks == nil || depth >= 3 || stack[h] {
+					continue
+				}
+				args := make([]*Term, len(call.Common().Args))
+				for i, av := range call.Common().Args {
+					args[i] = ctx.Term(av)
+				}
+				ch := ctx.child(h, call, args)
+				ch.depth = 0
+				stack[h] = true
+				walk(ch, h, depth+1, stack)
+				delete(stack, h)
+			}
+		}
+	}
+	walk(ck.P.NewCtx(root), root, 0, map[*ssa.Function]bool{root: true})
+}
+
 func (ck *Check) isLockedCall(t *Term, g *Term) bool {
 	if !isCallTo(t, ck.A.Locked) || len(t.Args) != 1 {
 		return false
@@ -72,12 +218,10 @@ func checkC02(ck *Check) {
 		return
 	}
 	// R1
-	ctx := ck.P.NewCtx(a.Scan)
 	g := ck.groupTerm(a.Scan)
-	acts := ck.actCalls()
-	for _, ci := range acts {
-		pc := ctx.PC(ci)
-		key := ck.P.siteKey(ci)
+	acts := ck.scanActs()
+	for _, ac := range acts {
+		ci, pc, key := ac.Call, ac.PC, ac.Key
 		if sat, err := Satisfiable(pc); err == nil && !sat {
 			ck.ok("C02.R1", key, ck.P.instrPos(ci), funcID(a.Scan), "PC ⇒ ¬locked(g)", "unreachable call (path condition unsatisfiable)")
 			continue
@@ -183,12 +327,16 @@ func checkC02(ck *Check) {
 		// whole-lock overwrites (nodeGroup.scaleUpLock = scaleLock{…}) outside construction
 		fLock := field(a.TState, "scaleUpLock")
 		for _, fn := range ck.P.Funcs {
-			if fn == a.NewController || fn == a.BuildState {
-				continue
-			}
 			for _, b := range fn.Blocks {
 				for _, in := range b.Instrs {
 					if st, ok := in.(*ssa.Store); ok && fieldOfAddr(st.Addr) == fLock {
+						// initialising the lock of a state object under construction (a fresh
+						// allocation of this function) is construction, wherever it is written
+						if fa, ok := st.Addr.(*ssa.FieldAddr); ok {
+							if _, fresh := fa.X.(*ssa.Alloc); fresh {
+								continue
+							}
+						}
 						ck.fail("C02.R3", funcID(fn)+"/lock-overwrite", ck.P.instrPos(st), funcID(fn), "a group's scale lock is never replaced after construction", "", "replacing the lock value resets the cool-down")
 					}
 				}
@@ -451,6 +599,21 @@ func (ck *Check) lockConstruction(rule string) {
 					var stateBase ssa.Value
 					if fa, ok := lockAddr.(*ssa.FieldAddr); ok {
 						stateBase = fa.X
+					} else if la, ok := lockAddr.(*ssa.Alloc); ok {
+						// a local scaleLock value copied whole into <state>.scaleUpLock
+						for _, r := range *la.Referrers() {
+							ld, ok := r.(*ssa.UnOp)
+							if !ok || ld.Op != token.MUL {
+								continue
+							}
+							for _, rr := range *ld.Referrers() {
+								if s3, ok := rr.(*ssa.Store); ok && s3.Val == ssa.Value(ld) {
+									if fa, ok := s3.Addr.(*ssa.FieldAddr); ok && fieldOfAddr(fa) == field(a.TState, "scaleUpLock") {
+										stateBase = fa.X
+									}
+								}
+							}
+						}
 					}
 					var optsVal *Term
 					if stateBase != nil {
@@ -627,9 +790,8 @@ func (ck *Check) recoveryBranch(rule string) {
 		return false
 	}
 	n := 0
-	for _, ci := range ck.actCalls() {
-		pc := ctx.PC(ci)
-		key := ck.P.siteKey(ci)
+	for _, ac := range ck.scanActs() {
+		ci, pc, key := ac.Call, ac.PC, ac.Key
 		if reachTaint(ci) {
 			n++
 			okv, why, err := ctx.EntailsLinear(pc, []LinFact{{A: minT, B: lenOf("len", U), K: 0, Text: "min_nodes ≤ len(untainted)"}})
@@ -646,7 +808,7 @@ func (ck *Check) recoveryBranch(rule string) {
 			if callee == a.ScaleUp {
 				for _, av := range ci.Common().Args {
 					if types.Identical(av.Type(), a.TScaleOpts) {
-						t := ctx.Term(av)
+						t := ac.Ctx.Term(av)
 						var delta *Term
 						st := a.TScaleOpts.Underlying().(*types.Struct)
 						for i := 0; i < st.NumFields(); i++ {
@@ -818,15 +980,15 @@ func checkC04(ck *Check) {
 		ck.undecided("C04.R4", "scan/all-nodes", "", funcID(a.Scan), "listed node slice", "not found")
 		return
 	}
-	acts := ck.actCalls()
-	for _, ci := range acts {
-		pc := sctx.PC(ci)
+	acts := ck.scanActs()
+	for _, ac := range acts {
+		ci, pc := ac.Call, ac.PC
 		facts := []LinFact{
 			{A: ck.optTerm(sg, "min_nodes"), B: lenOf("len", all), K: 0, Text: "min_nodes ≤ len(allNodes)"},
 			{A: lenOf("len", all), B: ck.optTerm(sg, "max_nodes"), K: 0, Text: "len(allNodes) ≤ max_nodes"},
 		}
-		okv, why, err := sctx.EntailsLinear(pc, facts)
-		key := ck.P.siteKey(ci) + "/in-bounds"
+		okv, why, err := ac.Ctx.EntailsLinear(pc, facts)
+		key := ac.Key + "/in-bounds"
 		if err != nil {
 			ck.undecided("C04.R4", key, ck.P.instrPos(ci), funcID(a.Scan), "node count within [min_nodes, max_nodes]", err.Error())
 			continue
